@@ -80,6 +80,10 @@ try:
     det = {}
     outdir = tempfile.mkdtemp(prefix="evseedout.")
     results = evrun.run_props(d, props, outdir, work=os.path.join(outdir, "work"))
+    noisy = evrun.baseline_failures(props)
+    if noisy:
+        print("WARNING: these checks already fail on the unchanged /repo with this binary and are not counted:", noisy)
+    meta["baseline_failing"] = noisy
     for pid in props:
         rc, text = results[pid]
         lines = [l.strip() for l in text.splitlines() if l.startswith("  C") or l.startswith("UNDECIDED")]
@@ -103,7 +107,7 @@ try:
 finally:
     shutil.rmtree(d, ignore_errors=True)
 meta["confirmed"] = bool(meta.get("applies") and meta.get("builds") and meta.get("suite_passes_with_change") and meta.get("demo_fails_with_change") and meta.get("demo_passes_without_change"))
-meta["detected_by"] = [k for k, v in meta.get("checks", {}).items() if v["exit"] != 0]
+meta["detected_by"] = [k for k, v in meta.get("checks", {}).items() if v["exit"] != 0 and k not in meta.get("baseline_failing", [])]
 json.dump(meta, open(os.path.join(out, "meta.json"), "w"), indent=1)
 print(json.dumps({k: meta[k] for k in ["seed", "property", "applies", "builds", "suite_passes_with_change", "demo_fails_with_change", "demo_passes_without_change", "confirmed", "detected_by"]}, indent=1))
 for k, v in meta.get("checks", {}).items():
